@@ -1,0 +1,50 @@
+//go:build verif
+
+// Machine-checked contracts for this package (comment-only; compiled only with -tags verif,
+// and even then contributes no code).  Read by /verif/govc; see /verif/DESIGN.md.
+
+package state
+
+//@ -- The Go mirror of struct cali_tc_state (only used by unit tests and tools; read back from the state map).
+//@ -- Up to and including `flags` the IPv4 and IPv6 kernel layouts coincide and the mirror matches both; its
+//@ -- tail (conntrack result, NAT data, ...) follows the IPv4 build and is padded, so sizes are only bounded.
+//@ layout stateSize: gosizeof(State) == expectedSize && csizeof("struct cali_tc_state") <= expectedSize && expectedSize <= entrySize && csizeof6("struct cali_tc_state") <= entrySize
+//@   property C13
+//@ layout stateSrcAddr: gooffsetof(State, SrcAddr) == coffsetof("struct cali_tc_state", "ip_src") && gooffsetof(State, SrcAddr) == coffsetof6("struct cali_tc_state", "ip_src")
+//@   property C13
+//@ layout stateDstAddr: gooffsetof(State, DstAddr) == coffsetof("struct cali_tc_state", "ip_dst") && gooffsetof(State, DstAddr) == coffsetof6("struct cali_tc_state", "ip_dst")
+//@   property C13
+//@ layout statePreNATDstAddr: gooffsetof(State, PreNATDstAddr) == coffsetof("struct cali_tc_state", "pre_nat_ip_dst") && gooffsetof(State, PreNATDstAddr) == coffsetof6("struct cali_tc_state", "pre_nat_ip_dst")
+//@   property C13
+//@ layout statePostNATDstAddr: gooffsetof(State, PostNATDstAddr) == coffsetof("struct cali_tc_state", "post_nat_ip_dst") && gooffsetof(State, PostNATDstAddr) == coffsetof6("struct cali_tc_state", "post_nat_ip_dst")
+//@   property C13
+//@ layout stateTunIP: gooffsetof(State, TunIP) == coffsetof("struct cali_tc_state", "tun_ip") && gooffsetof(State, TunIP) == coffsetof6("struct cali_tc_state", "tun_ip")
+//@   property C13
+//@ layout statePolicyRC: gooffsetof(State, PolicyRC) == coffsetof("struct cali_tc_state", "pol_rc") && gooffsetof(State, PolicyRC) == coffsetof6("struct cali_tc_state", "pol_rc")
+//@   property C13
+//@ layout stateSrcPort: gooffsetof(State, SrcPort) == coffsetof("struct cali_tc_state", "sport") && gooffsetof(State, SrcPort) == coffsetof6("struct cali_tc_state", "sport")
+//@   property C13
+//@ layout stateDstPort: gooffsetof(State, DstPort) == coffsetof("struct cali_tc_state", "dport") && gooffsetof(State, DstPort) == coffsetof6("struct cali_tc_state", "dport")
+//@   property C13
+//@ layout statePreNATDstPort: gooffsetof(State, PreNATDstPort) == coffsetof("struct cali_tc_state", "pre_nat_dport") && gooffsetof(State, PreNATDstPort) == coffsetof6("struct cali_tc_state", "pre_nat_dport")
+//@   property C13
+//@ layout statePostNATDstPort: gooffsetof(State, PostNATDstPort) == coffsetof("struct cali_tc_state", "post_nat_dport") && gooffsetof(State, PostNATDstPort) == coffsetof6("struct cali_tc_state", "post_nat_dport")
+//@   property C13
+//@ layout stateIPProto: gooffsetof(State, IPProto) == coffsetof("struct cali_tc_state", "ip_proto") && gooffsetof(State, IPProto) == coffsetof6("struct cali_tc_state", "ip_proto")
+//@   property C13
+//@ layout stateIPSize: gooffsetof(State, IPSize) == coffsetof("struct cali_tc_state", "ip_size") && gooffsetof(State, IPSize) == coffsetof6("struct cali_tc_state", "ip_size")
+//@   property C13
+//@ layout stateRulesHit: gooffsetof(State, RulesHit) == coffsetof("struct cali_tc_state", "rules_hit") && gooffsetof(State, RulesHit) == coffsetof6("struct cali_tc_state", "rules_hit")
+//@   property C13
+//@ layout stateRuleIDs: gooffsetof(State, RuleIDs) == coffsetof("struct cali_tc_state", "rule_ids") && gooffsetof(State, RuleIDs) == coffsetof6("struct cali_tc_state", "rule_ids")
+//@   property C13
+//@ layout stateFlags: gooffsetof(State, Flags) == coffsetof("struct cali_tc_state", "flags") && gooffsetof(State, Flags) == coffsetof6("struct cali_tc_state", "flags")
+//@   property C13
+//@ layout stateNATData: gooffsetof(State, NATData) == coffsetof("struct cali_tc_state", "nat_dest")
+//@   property C13
+//@ layout stateProgStartTime: gooffsetof(State, ProgStartTime) == coffsetof("struct cali_tc_state", "prog_start_time")
+//@   property C13
+//@ layout stateSrcAddrMasq: gooffsetof(State, SrcAddrMasq) == coffsetof("struct cali_tc_state", "ip_src_masq")
+//@   property C13
+//@ layout stateNATSvcID: gooffsetof(State, NATSvcID) == coffsetof("struct cali_tc_state", "nat_svc_id")
+//@   property C13
